@@ -52,3 +52,68 @@ Example C23_nonvacuous :
   edges None l = [(0, 1, AW); (0, 2, AW); (0, 3, AW); (1, 3, AR); (2, 3, AR); (3, 4, AC)]%N
   /\ chk_edges l (edges None l) = true.
 Proof. vm_compute. split; reflexivity. Qed.
+
+(** ** Block level (appended): the same three clauses for the memory edges of a whole block built
+    by [ScheduledBasicBlock::build] (model Model/Graph.v) over any number of regions.
+    [macc r is term] is region [r]'s access sequence of the block: instructions in order (nodes
+    1, 2, ...), per instruction its reads, then writes, then captures of [r], the terminator last.
+    [accesses i r a]: instruction summary [i] performs an access of kind [a] to region [r]. *)
+From QV Require Import Model.Graph Proofs.GraphProofs Proofs.GraphReachProofs Proofs.GraphBlockProofs.
+
+Theorem C23_block_conflicts_ordered :
+  forall (is : list info) (term : option info) (E : list gedge) (r m : N) (a : acc) (n : N) (b : acc),
+    build is term = inr E ->
+    In ((m, a), (n, b)) (pairs (macc r is term)) -> conflict a b = true -> m <> n ->
+    clos_trans N (mrel E) m n.
+Proof. exact block_mem_conflicts_ordered. Qed.
+
+(** the same in terms of two instructions at positions p < q ... *)
+Theorem C23_block_instructions_ordered :
+  forall (is : list info) (term : option info) (E : list gedge) (p q : nat) (i j : info)
+         (r : N) (a b : acc),
+    build is term = inr E ->
+    nth_error is p = Some i -> nth_error is q = Some j -> (p < q)%nat ->
+    accesses i r a -> accesses j r b -> conflict a b = true ->
+    clos_trans N (mrel E) (1 + N.of_nat p)%N (1 + N.of_nat q)%N.
+Proof. exact block_mem_instr_ordered. Qed.
+
+(** ... and of an instruction and the block terminator (JUMP-WHEN / JUMP-UNLESS read memory) *)
+Theorem C23_block_terminator_ordered :
+  forall (is : list info) (term : option info) (E : list gedge) (p : nat) (i j : info)
+         (r : N) (a b : acc),
+    build is term = inr E ->
+    nth_error is p = Some i -> term = Some j ->
+    accesses i r a -> accesses j r b -> conflict a b = true ->
+    clos_trans N (mrel E) (1 + N.of_nat p)%N (end_node is).
+Proof. exact block_mem_term_ordered. Qed.
+
+Theorem C23_block_edges_justified :
+  forall (is : list info) (term : option info) (E : list gedge) (m n : N) (k : acc),
+    build is term = inr E -> In (m, n, KMem k) E ->
+    m <> n /\ exists r b i j, instr_at is term m i /\ instr_at is term n j /\
+                             accesses i r k /\ accesses j r b /\ conflict k b = true.
+Proof. exact block_mem_edges_instr. Qed.
+
+Theorem C23_block_reads_unordered :
+  forall (is : list info) (term : option info) (E : list gedge) (m n : N) (k : acc),
+    build is term = inr E ->
+    (forall r, only_reads (macc r is term) m) -> (forall r, only_reads (macc r is term) n) ->
+    ~ In (m, n, KMem k) E.
+Proof. exact block_mem_reads_unordered. Qed.
+
+(** the block-level instance checker (run by the C22 harness on the implementation's edges) *)
+Theorem C23_block_checker_sound :
+  forall (is : list info) (term : option info) (E : list gedge),
+    chk_mem_block is term E = true -> mem_block_spec is term E.
+Proof. exact chk_mem_block_sound. Qed.
+
+Local Open Scope N_scope.
+Example C23_block_nonvacuous :
+  let is := [MkInfo RClassical false [] [0] [] [] [] false;      (* MOVE a .. *)
+             MkInfo RClassical false [0] [1] [] [] [] false;     (* MOVE b a *)
+             MkInfo RClassical false [0; 1] [0] [] [] [] false;  (* ADD a b *)
+             MkInfo RRF false [] [] [1] [0] [] true] in          (* CAPTURE .. b *)
+  exists E, build is (Some (MkInfo RControl false [1] [] [] [] [] false)) = inr E /\
+            chk_mem_block is (Some (MkInfo RControl false [1] [] [] [] [] false)) E = true /\
+            existsb (gedge_eqb (1, 2, KMem AW)%N) E = true /\ existsb (gedge_eqb (4, 5, KMem AC)%N) E = true.
+Proof. vm_compute. eexists. repeat split. Qed.
